@@ -96,7 +96,7 @@ SPECS = [EnumSpec('json_errc', 'include/jsoncons/json_error.hpp'), EnumSpec('sem
          FuncSpec('begin_scalar_value', E, r'void begin_scalar_value\(\)', count=1, csig='static void begin_scalar_value(struct pretty_encoder* self, int* ec_p)', aliases=AL, rules=RULES),
          FuncSpec('end_value', E, r'void end_value\(\)', count=1, csig='static void end_value(struct pretty_encoder* self, int* ec_p)', aliases=AL, rules=RULES)]
 SITE_CHECKS = [
-    {'file': E, 'pattern': r'void (?:indent|unindent)\(\)\s*\{\s*indent_amount_ [+-]= static_cast<int>\(options_\.indent_size\(\)\);\s*\}', 'count': 2, 'props': ['C01', 'C08'], 'what': 'indent() / unindent() only change the indentation amount'},
+    {'file': E, 'pattern': r'void (?:indent|unindent)\(\)\s*\{\s*indent_amount_ [+-]= static_cast<\w+>\(options_\.indent_size\(\)\);\s*\}', 'count': 2, 'props': ['C01', 'C08'], 'what': 'indent() / unindent() only change the indentation amount'},
 ]
 GROUPS = {'visits': VISITS}
 HARNESSES = [Harness(v.name, 'h_' + v.name, enforce=v.name, method='LF', props=['C08', 'C01'] + (['C10'] if 'begin' in v.name else []),
